@@ -87,7 +87,7 @@ package node
 //@   epilogue $vData = ite(result == nil, content(message.Data), old($vData))
 //@   epilogue $vSig = ite(result == nil, content(message.Signature), old($vSig))
 //@   epilogue $vRound = ite(result == nil, roundOf(fsmInstance), old($vRound))
-//@   ensures[C09.verify,C10.signed] result == nil ==> s.SkipCommKeysVerification || (fsmInstance.dump != nil && fsmInstance.dump.Payload != nil && message.SenderAddr in fsmInstance.dump.Payload.PubKeys && edValid(content(fsmInstance.dump.Payload.PubKeys[message.SenderAddr]), content(message.Data), content(message.Signature)))
+//@   ensures[C09.verify,C10.signed,C08.verify.registered] result == nil ==> s.SkipCommKeysVerification || (fsmInstance.dump != nil && fsmInstance.dump.Payload != nil && message.SenderAddr in fsmInstance.dump.Payload.PubKeys && edValid(content(fsmInstance.dump.Payload.PubKeys[message.SenderAddr]), content(message.Data), content(message.Signature)))
 
 // ---- handlers of verified messages: every durable effect is behind the guard
 // a broadcast reconstructed signature is stored for the round and the sender of the board message that carried it,
@@ -293,6 +293,7 @@ package node
 //@   nosafety
 //@   requires signingFSM != nil
 //@   modifies *
+//@   modifies $suites, $suiteSeed
 //@   assert@call TasksToMessages[C03.reconstruct.expansion] msgs == loc(signingTasks)
 //@   loop 2 invariant[C03.reconstruct.index] forall k string :: k in messages ==> (exists j int :: 0 <= j && j <= $i && messagesPayload[j].MessageID == k && messages[k] == messagesPayload[j])
 //@   loop 3 invariant[C03.reconstruct.index] forall k string :: k in messages ==> (exists j int :: 0 <= j && j < len(messagesPayload) && messagesPayload[j].MessageID == k && messages[k] == messagesPayload[j])
